@@ -20,6 +20,8 @@ pub enum Op {
     Ramp { owner: bool, fa: u64, fb: u64 },
     Donate { i: usize, x: u128 },
     Advance { dh: u64 },
+    /// UpdateConfig { pool_fees } (protocol, swap, burn) by the owner or by somebody else
+    SetFees { owner: bool, f: (u128, u128, u128) },
 }
 impl Op {
     pub fn coq(&self) -> String {
@@ -31,6 +33,7 @@ impl Op {
             Op::Ramp { owner, fa, fb } => format!("Ramp {} {} {}", coqbool(*owner), fa, fb),
             Op::Donate { i, x } => format!("Donate {} {}", i, x),
             Op::Advance { dh } => format!("Advance {}", dh),
+            Op::SetFees { owner, f } => format!("SetFees {} (mkFees {} {} {})", coqbool(*owner), f.0, f.1, f.2),
         }
     }
     pub fn json(&self) -> serde_json::Value {
@@ -42,11 +45,12 @@ impl Op {
             Op::Ramp { owner, fa, fb } => json!({"op": "ramp", "by_owner": owner, "future_a": fa, "future_block": fb}),
             Op::Donate { i, x } => json!({"op": "donate", "index": i, "amount": x.to_string()}),
             Op::Advance { dh } => json!({"op": "advance", "blocks": dh}),
+            Op::SetFees { owner, f } => json!({"op": "set_fees", "by_owner": owner, "fees_protocol_swap_burn": [f.0.to_string(), f.1.to_string(), f.2.to_string()]}),
         }
     }
     fn kind(&self) -> &'static str {
         match self { Op::Provide { .. } => "provide", Op::Withdraw { .. } => "withdraw", Op::Swap { .. } => "swap", Op::Collect => "collect",
-                     Op::Ramp { .. } => "ramp", Op::Donate { .. } => "donate", Op::Advance { .. } => "advance" }
+                     Op::Ramp { .. } => "ramp", Op::Donate { .. } => "donate", Op::Advance { .. } => "advance", Op::SetFees { .. } => "set_fees" }
     }
 }
 
@@ -94,6 +98,11 @@ pub fn exec(w: &mut TrioWorld, op: &Op) -> Result<(), String> {
         Op::Ramp { owner, fa, fb } => w.ramp(if *owner { OWNER } else { "carol" }, *fa, *fb).map(|_| ()),
         Op::Donate { i, x } => w.donate("donor", *i, *x).map(|_| ()),
         Op::Advance { dh } => { w.advance(*dh); Ok(()) }
+        Op::SetFees { owner, f } => {
+            let msg = white_whale_std::pool_network::trio::ExecuteMsg::UpdateConfig { owner: None, fee_collector_addr: None, pool_fees: Some(trio_fee(f.0, f.1, f.2)), feature_toggle: None, amp_factor: None };
+            let (app, trio) = (&mut w.app, w.trio.clone());
+            guarded(|| cw_multi_test::Executor::execute_contract(app, cosmwasm_std::Addr::unchecked(if *owner { OWNER } else { "carol" }), trio, &msg, &[])).map(|_| ())
+        }
     }
 }
 
@@ -173,6 +182,15 @@ fn monitors(cx: &mut Ctx, op: &Op, ok: bool, before: &Snap, after: &Snap) {
                 if b(r1[*i]) != b(r0[*i]) + b(*x) { out.monitor_fail("C04", "offer reserve did not grow by exactly the offer", rp.clone()); }
                 if got >= b(r0[*j]) { out.monitor_fail("C04", "proceeds not below the ask reserve", rp.clone()); }
             } else { out.monitor_fail("C04", "swap executed although the curve computation fails on the same reserves", rp.clone()); }
+        }
+        Op::Provide { d, .. } if before.supply > 0 => {
+            // a deposit is priced on the reported reserves (balance - pending protocol fee, whatever the asset kind): the LP minted is the
+            // pool's own mint formula (through the hook) on those reserves
+            let t: Ramp5 = (before.cfg[0], before.cfg[1], before.height, before.cfg[2], before.cfg[3]);
+            if let Outcome::Ok(m) = crate::c04::impl_mint(t, *d, r0, before.supply) {
+                let minted = after.supply - before.supply;
+                if m != minted { out.monitor_fail("C04", &format!("a deposit minted {} LP but the mint formula on the reported reserves (balances minus pending protocol fees) gives {}", minted, m), rp.clone()); }
+            }
         }
         Op::Withdraw { u, amount } => {
             for k in 0..3 {
@@ -272,9 +290,23 @@ pub fn run_history(out: &mut Out, rng: &mut Rng, h: &History) {
     let mut k = 0usize;
     let mut pending_back: Option<Op> = None;
     let mut last_swap: Option<(usize, usize, usize, u128, u128, u128, Snap)> = None;
+    // the fee schedule in force (UpdateConfig may change it mid-history); the monitors judge every step by it
+    let mut cur_fees = h.fees;
+    // fee changes come from a generator state of their own and only in every second generated history, so the other histories stay what they were
+    let mut side = Rng::new(h.amp ^ (h.fees.0 as u64).rotate_left(7) ^ (h.fees.1 as u64).rotate_left(29) ^ (h.len as u64) << 3 ^ 0x5345_5446);
+    let fee_changes = h.fixed.is_none() && side.chance(1, 2);
+    let mut just_changed = true;
     loop {
         let before = snap(&w);
-        let op = if let Some(f) = &h.fixed { match f.get(k) { Some(o) => o.clone(), None => break } }
+        let op = if fee_changes && !just_changed && k >= 2 && k < h.len && pending_back.is_none() && side.chance(1, 7) {
+                     just_changed = true;
+                     let valid = !side.chance(1, 8);
+                     let mut nf = fee_triple(&mut side, valid);
+                     if side.chance(1, 2) { nf.0 = 0; }
+                     k -= 1;
+                     Op::SetFees { owner: !side.chance(1, 8), f: nf }
+                 }
+                 else if let Some(f) = &h.fixed { match f.get(k) { Some(Op::Withdraw { u, amount: u128::MAX }) => Op::Withdraw { u: *u, amount: before.lp[*u] }, Some(o) => o.clone(), None => break } }
                  else if k >= h.len { break }
                  else if let Some(o) = pending_back.take() { o }
                  else if k == 0 { Op::Provide { u: 0, d: gen_first_deposit(rng) } }
@@ -291,8 +323,10 @@ pub fn run_history(out: &mut Out, rng: &mut Rng, h: &History) {
                                                          s.protocol_fee_amount.to_string(), s.burn_fee_amount.to_string()], Err(_) => vec!["1".into()] };
             out.case("c14_sim3", &input, &o, replay.clone());
         }
+        if !matches!(op, Op::SetFees { .. }) { just_changed = false; }
         let r = exec(&mut w, &op);
         let after = snap(&w);
+        if let (Ok(_), Op::SetFees { f, .. }) = (&r, &op) { cur_fees = *f; out.count(if f.0 == 0 { "pool:fees_changed_protocol_zero" } else { "pool:fees_changed" }); }
         // C15 on the 3pool (no belief price in this stream): accepted <=> floor(spread*1e18/(gross+spread)) <= min(max_spread or 1%, 50%)
         if let (Some(Ok(sim)), Op::Swap { ms, .. }) = (&quote, &op) {
             let gross = sim.return_amount.u128() + sim.swap_fee_amount.u128() + sim.protocol_fee_amount.u128() + sim.burn_fee_amount.u128();
@@ -323,7 +357,7 @@ pub fn run_history(out: &mut Out, rng: &mut Rng, h: &History) {
             }
         }
         out.count(&format!("pool:{}:{}", op.kind(), match &r { Ok(_) => "ok", Err(e) => if fail_class(e).is_none() { "panic" } else { "rejected" } }));
-        let mut cx = Ctx { out: &mut *out, replay: replay.clone(), fees: h.fees };
+        let mut cx = Ctx { out: &mut *out, replay: replay.clone(), fees: cur_fees };
         monitors(&mut cx, &op, r.is_ok(), &before, &after);
         // there and straight back: a successful swap i->j followed by the same user's swap j->i of exactly the proceeds
         if let (Ok(_), Op::Swap { u, i, j, x, .. }) = (&r, &op) {
@@ -418,6 +452,53 @@ pub fn pool_histories(out: &mut Out, rng: &mut Rng, n: u64) {
             Op::Swap { u: 1, i: 0, j: 2, x: 800_000, ms: None },        // asset 2 now ~1100: collectable
             Op::Collect,
             Op::Withdraw { u: 0, amount: 500_000_000 },
+        ]) },
+        // the third asset is bought out of the pool with both others until it is scarce (the protocol fees of those swaps are pending in
+        // it, several per cent of its reserve); the owner then switches the protocol fee off (somebody else tries first); deposits of the
+        // abundant assets follow, the depositor leaves; later another schedule, a swap, fees off entirely, a one-sided deposit
+        History { amp: 100, fees: (5 * DEC / 1000, DEC / 1000, 0), kinds: [false, false, false], len: 0, fixed: Some(vec![
+            Op::Provide { u: 0, d: [1_000_000_000_000, 1_000_000_000_000, 1_000_000_000_000] },
+            Op::Provide { u: 1, d: [30_000_000_000, 5_000_000_000, 1_000_000_000] },
+            Op::Swap { u: 2, i: 0, j: 2, x: 450_000_000_000, ms: Some(DEC / 2) },
+            Op::Swap { u: 2, i: 1, j: 2, x: 450_000_000_000, ms: Some(DEC / 2) },
+            Op::Swap { u: 2, i: 0, j: 2, x: 60_000_000_000, ms: Some(DEC / 2) },
+            Op::Swap { u: 2, i: 1, j: 2, x: 30_000_000_000, ms: Some(DEC / 2) },
+            Op::Provide { u: 1, d: [10_000_000_000, 10_000_000_000, 1_000] },
+            Op::SetFees { owner: false, f: (0, DEC / 1000, 0) },
+            Op::SetFees { owner: true, f: (0, DEC / 1000, 0) },
+            Op::Provide { u: 1, d: [1_000_000_000_000, 1_000_000_000_000, 1_000] },
+            Op::Withdraw { u: 1, amount: u128::MAX },      // = everything the user holds (resolved when the step runs)
+            Op::SetFees { owner: true, f: (DEC / 100, 0, DEC / 1000) },
+            Op::Swap { u: 2, i: 2, j: 0, x: 40_000_000_000, ms: Some(DEC / 2) },
+            Op::SetFees { owner: true, f: (DEC / 2, DEC / 2, 0) },     // sums to 100 %: refused
+            Op::SetFees { owner: true, f: (0, 0, 0) },
+            Op::Provide { u: 1, d: [1_000, 1_000, 500_000_000_000] },
+            Op::Withdraw { u: 1, amount: u128::MAX },
+        ]) },
+        // a steep ramp (1000 -> 10000 over 10 000 blocks: the interpolated amplification moves in almost every block); quotes and swaps in
+        // consecutive blocks of it, in its last blocks and after it, in an imbalanced pool
+        History { amp: 1000, fees: (DEC / 1000, 3 * DEC / 1000, 0), kinds: [false, false, false], len: 0, fixed: Some(vec![
+            Op::Provide { u: 0, d: [1_000_000_000_000, 1_000_000_000_000, 1_000_000_000_000] },
+            Op::Swap { u: 2, i: 0, j: 2, x: 800_000_000_000, ms: Some(DEC / 2) },
+            Op::Ramp { owner: true, fa: 10_000, fb: 22_345 },
+            Op::Advance { dh: 3_000 },
+            Op::Swap { u: 1, i: 1, j: 2, x: 100_000_000_000, ms: Some(DEC / 2) },
+            Op::Advance { dh: 1 },
+            Op::Swap { u: 1, i: 2, j: 0, x: 150_000_000_000, ms: Some(DEC / 2) },
+            Op::Advance { dh: 1 },
+            Op::Swap { u: 2, i: 0, j: 1, x: 90_000_000_000, ms: Some(DEC / 2) },
+            Op::Advance { dh: 1 },
+            Op::Swap { u: 1, i: 1, j: 2, x: 70_000_000_000, ms: Some(DEC / 2) },
+            Op::Advance { dh: 1 },
+            Op::Swap { u: 2, i: 0, j: 2, x: 200_000_000_000, ms: Some(DEC / 2) },
+            Op::Advance { dh: 6_000 },
+            Op::Swap { u: 1, i: 2, j: 1, x: 300_000_000_000, ms: Some(DEC / 2) },
+            Op::Advance { dh: 1 },
+            Op::Swap { u: 1, i: 0, j: 2, x: 50_000_000_000, ms: Some(DEC / 2) },
+            Op::Advance { dh: 2_000 },
+            Op::Swap { u: 2, i: 1, j: 2, x: 50_000_000_000, ms: Some(DEC / 2) },
+            Op::Advance { dh: 1 },
+            Op::Swap { u: 2, i: 2, j: 0, x: 50_000_000_000, ms: Some(DEC / 2) },
         ]) },
     ];
     for h in corpus { run_history(out, rng, &h); }
